@@ -30,6 +30,9 @@ fn dag_spec() -> DagSpec {
 enum Unit {
     Unary(U),
     Binary(B),
+    /// the op followed by further uses of its operands (register sharing patterns)
+    ReuseBin(B),
+    ReuseUn(U),
     Dag { n: usize, prefix: Vec<POp> },
     Fan { w: usize },
     Tree { w: usize },
@@ -47,6 +50,10 @@ fn units(tier: Tier) -> Vec<Unit> {
     }
     for b in refsem::BINARY {
         v.push(Unit::Binary(b));
+        v.push(Unit::ReuseBin(b));
+    }
+    for u in refsem::UNARY {
+        v.push(Unit::ReuseUn(u));
     }
     let nmax = match tier {
         Tier::Quick => 3,
@@ -88,14 +95,35 @@ fn lanes(vals: &[f32], nvars: usize, n: usize) -> Vec<Vec<f32>> {
 
 struct Compare<'a> {
     flat: &'a Flat,
+    /// only the program's own outputs are exported: intermediate values are
+    /// not observable, so min/max zero-sign ties are found with the reference
+    /// evaluation of the graph at the sample instead
+    raw: bool,
 }
 
 impl Compare<'_> {
     /// Per-node comparison with the min/max-of-two-zeros exception: returns
     /// the first offending output index, if any.  `jit` / `vm` are per-output
     /// values for one sample.
-    fn sample(&self, cx: &mut Cx, jit: &[f32], vm: &[f32]) -> Option<(usize, f32, f32)> {
+    fn sample(&self, cx: &mut Cx, jit: &[f32], vm: &[f32], inputs: &[f32]) -> Option<(usize, f32, f32)> {
         let flat = self.flat;
+        if self.raw {
+            let (mut vals, mut amb) = (vec![], vec![]);
+            flat.eval_all(inputs, &mut vals, &mut amb);
+            for (i, r) in flat.roots.iter().enumerate() {
+                cx.add("node_samples_compared", 1);
+                if refsem::same32(jit[i], vm[i]) {
+                    continue;
+                }
+                if amb[*r] {
+                    // downstream of a min/max of two zeros of different sign
+                    cx.add("node_samples_excluded_after_zero_sign", 1);
+                    continue;
+                }
+                return Some((i, jit[i], vm[i]));
+            }
+            return None;
+        }
         // value of every graph node according to the VM (constants from the graph)
         let mut val_vm = vec![f32::NAN; flat.ops.len()];
         let mut out_of = vec![usize::MAX; flat.ops.len()];
@@ -211,7 +239,7 @@ fn check_program_roots(
         return;
     };
     let nv = flat.vars.len();
-    let cmp = Compare { flat: &flat };
+    let cmp = Compare { flat: &flat, raw: raw_roots };
     if {
         let ops = evalkit::Backend::reg_ops(&jit);
         ops.iter().any(|o| matches!(o, fidget_core::compiler::RegOp::Load(..) | fidget_core::compiler::RegOp::Store(..)))
@@ -269,7 +297,7 @@ fn check_program_roots(
             cx.violation("jit-point output count", desc(), format!("{} vs {}", jo.len(), vo.len()));
             continue;
         }
-        if let Some((i, a, b)) = cmp.sample(cx, &jo, &vo) {
+        if let Some((i, a, b)) = cmp.sample(cx, &jo, &vo, pt) {
             cx.violation(
                 format!("jit-point value differs from interpreter op={}", node_kind(&flat, i)),
                 desc(),
@@ -357,8 +385,8 @@ fn check_program_roots(
             for l in 0..n {
                 let js: Vec<f32> = jo.iter().map(|o| o[l]).collect();
                 let vs: Vec<f32> = vo.iter().map(|o| o[l]).collect();
-                if let Some((i, a, b)) = cmp.sample(cx, &js, &vs) {
-                    let ins: Vec<f32> = cols_flat.iter().map(|c| c[l]).collect();
+                let ins: Vec<f32> = cols_flat.iter().map(|c| c[l]).collect();
+                if let Some((i, a, b)) = cmp.sample(cx, &js, &vs, &ins) {
                     cx.violation(
                         format!("jit-float-slice value differs from interpreter op={}", node_kind(&flat, i)),
                         desc(),
@@ -402,7 +430,7 @@ impl Check for C02 {
     }
     fn meta(&self, tier: Tier) -> Meta {
         Meta {
-            rule: "case = program with every non-constant node exported; programs: every opcode x operand form {reg/reg, same-reg, reg/imm, imm/reg} x (value alphabet V + op-specific boundary values)^2; every DAG up to the node bound over leaves {X,Y,2.5}, ops {neg,sub,min,add,sin}; fan families of width w (libm / atan2 / mod call-outs between live registers, w > 12 forces stack spills) and trees with up to 40 variables and 79 outputs; output lists in which one node is bound to two outputs with m = 1..16 other outputs between; two huge programs with 300 and 1400 simultaneously live values (stack frames of several KiB); JIT point evaluator vs VM point evaluator at every point; JIT SIMD evaluator vs VM many-point evaluator for EVERY slice length 0..=35 with each input slice placed both right before and right after a PROT_NONE guard page; per-node comparison bit-identical, NaN = NaN, min/max of two zeros may differ in sign (dependants then excluded)".into(),
+            rule: "case = program with every non-constant node exported; programs: every opcode x operand form {reg/reg, same-reg, reg/imm, imm/reg} x (value alphabet V + op-specific boundary values)^2; for EVERY opcode 11 (binary) / 3 (unary) programs in which the op's operands are used again afterwards in every pattern (b(x,y)+x, b(x,y)+y, x-b(x,y), b(b(x,y),x), b(x,b(x,y)), ...: the patterns decide whether the output shares a register with the left operand, the right operand or neither) over the op's value alphabet squared; every DAG up to the node bound over leaves {X,Y,2.5}, ops {neg,sub,min,add,sin}; fan families of width w (libm / atan2 / mod call-outs between live registers, w > 12 forces stack spills) and trees with up to 40 variables and 79 outputs; output lists in which one node is bound to two outputs with m = 1..16 other outputs between; two huge programs with 300 and 1400 simultaneously live values (stack frames of several KiB); JIT point evaluator vs VM point evaluator at every point; JIT SIMD evaluator vs VM many-point evaluator for EVERY slice length 0..=35 with each input slice placed both right before and right after a PROT_NONE guard page; per-node comparison bit-identical, NaN = NaN, min/max of two zeros may differ in sign (dependants then excluded)".into(),
             bounds: match tier {
                 Tier::Quick => "DAG nodes <= 3, fan width <= 16".into(),
                 Tier::Thorough => "DAG nodes <= 4, fan width <= 24, every unary opcode as the fan call-out".into(),
@@ -457,6 +485,24 @@ impl Check for C02 {
                         p.roots = vec![r];
                         check_program(cx, &mut sub, &p, &vals, true, &[0, 3, 8, 13]);
                     }
+                }
+            }
+            Unit::ReuseBin(op) => {
+                // operands used again after the op, in every pattern: decides which
+                // operand register the output may share
+                let vals = alpha::binary_values(op, true);
+                // both with the single root (the allocation a user gets) and with
+                // every node exported (which keeps all values live)
+                for p in prog::reuse_patterns(op) {
+                    check_program_roots(cx, &mut sub, &p, &vals, true, &[0, 1, 7, 8, 9, 35], true);
+                    check_program(cx, &mut sub, &p, &vals, true, &[0, 8, 9]);
+                }
+            }
+            Unit::ReuseUn(op) => {
+                let vals = alpha::unary_values(op, true);
+                for p in prog::reuse_patterns_unary(op) {
+                    check_program_roots(cx, &mut sub, &p, &vals, true, &[0, 1, 7, 8, 9, 35], true);
+                    check_program(cx, &mut sub, &p, &vals, true, &[0, 8, 9]);
                 }
             }
             Unit::Dag { n, prefix } => {
